@@ -31,3 +31,11 @@ class LocalDaemon(Pyro5.api.Daemon):
     def __new__(cls, *a, **k):
         LOG.append(("LocalDaemon.new",))
         return super().__new__(cls)
+
+
+class error(Exception):
+    """the module-level exception of an application codec module, named the way extension modules name theirs (struct.error, zlib.error)"""
+
+    def __init__(self, *a):
+        LOG.append(("error.init", repr(a)[:60]))
+        super().__init__(*a)
